@@ -468,7 +468,8 @@ enum_ops(mc_op *out, int max)
     if (M.attached) {
         if (M.attached == 'w' && M.nrec + 2 < MAXREC) {
             if (M.cursor >= 0 && M.cursor <= M.nrec) {
-                if (M.cursor == M.nrec || M.cursor + 2 <= M.nrec || thorough) {
+                /* (cursor == nrec - 1 with a 2-record write straddles the end of the table) */
+                if (1) {
                     ADD(O_WRITE, 1, FULL_INTERLACE, 0, 0);
                     ADD(O_WRITE, 2, NO_INTERLACE, 0, 0);
                     if (thorough) {
